@@ -85,6 +85,9 @@ def run(ctx, only=None):
     tricky_b = ['<my-widget>\n\npara\n', '<x-y a="b">\ntext\n\nafter\n', '</my-widget>\n\npara\n', '    indented\n', '  - item\n', '---\n', '===\n', '```\nx\n', '> q\n', '| a |\n| - |\n', '</div>\n', '-->\n', '   continuation\n', '1. one\n', '# h\n',
                 '\n\n    code\n', ' | - |\n', '[x]\n', '  ===\n', '\tx\n', '~~~\n', 'x\n---\n',
                 # headings whose text is empty or made of # only: what Heading.start leaves behind for read() must be B's, not A's
+                # list items that begin with a blank line (a bare marker), inside containers: the blocks under them have their own line origin
+                '> -\n>   under a bare marker\n> - second\n', '- outer\n\n  *\n    inner\n', '> 1.\n>    # heading\n>\n>    text\n', '> para\n>\n> -\n>   ```\n>   code\n>   ```\n',
+                '1. one\n2.\n   two\n\n   - \n     deep\n', '> > -\n> >   x\n',
                 '# #\n', '## ##\n\nbody\n', '### ###\n', '#\n', '# # #\n', '## \n\nbody\n', '# ##\n']
     tricky_a = ['<!-- note -->\n\npara\n', '<pre>\nx\n</pre>\n\npara\n', '<?php x ?>\n\npara\n', '<!DOCTYPE x>\n\n# h\n', '```py\nc\n```\n\npara\n', '# h ##\n\npara\n', 'para\n', '# h\n', 'h\n===\n', '***\n', '> quote\n', '> ```\n> x\n', '> - a\n', '| a |\n| - |\n| b |\n', '> <div>\n', 'a\n\n> b\nlazy\n', '- x\n\npara\n',
                 '```\nc\n```\npara\n', '    code\n\npara\n', '<div>\nx\n</div>\n\npara\n', '> | a |\n> | - |\n', '> a\n> ===\n',
